@@ -31,6 +31,17 @@ CHECKS.update({
                 text='The family one interaction x every ending is explored on two real endpoints; after a fair flush both endpoints must hold no stream and no partial frame.',
                 ref='4 C10'),
 })
+CHECKS.update({
+    'C05': dict(tech='exhaustive enumeration of all interleavings of enqueue operations with sender progress (stateless DFS with replay) on the real sender',
+                text='The real send queue and sender task run against a transport whose write completes only when the explorer says so; every interleaving of up to 3 (thorough 4) enqueues with the write completions is executed and judged per stream.',
+                ref='4 C05'),
+    'C06': dict(tech='exhaustive enumeration of configurations x credit sequences x arrival placements on the real publishers, credit monitor on every execution',
+                text='Every REQUEST_N sequence (bounded length, boundary values) is delivered at every loop-iteration offset relative to production for every library stream source and role; an unbounded-integer credit ledger is checked at the transport boundary.',
+                ref='4 C06'),
+    'C07': dict(tech='exhaustive enumeration of all operation sequences up to a depth (legal peer frames, local actions, connection events) against one real endpoint',
+                text='All sequences over the event alphabet up to the stated depth, filtered by a reference automaton of legal peer behaviour, each also with every adjacent pair in one loop iteration; subscriber signal grammar and future exactly-once are checked on every sequence.',
+                ref='4 C07'),
+})
 NOT_YET = {
 }
 ALL = ['C%02d' % i for i in range(1, 21)]
